@@ -65,6 +65,11 @@ Eff(op, t) ==
          ELSE IF q = p THEN Ok(t, "true")                                                    \* an equal target: nothing changes
          ELSE IF t[q].k = "dir" \/ AncestorIsFile(t, q) THEN Fail(t)
          ELSE Ok([WithParents(t, q) EXCEPT ![q] = t[p]], "true")
+    \* the same file under two spellings (source d/../<p>, target <p>): copying / moving a file onto itself changes nothing;
+    \* the detour is only a path when d is a directory
+    [] op.cmd \in {"cp_detour", "mv_detour"} ->
+         IF t[p].k = "dir" THEN Ok(t, "skip")
+         ELSE IF t[p].k = "file" /\ Kind(t, "d") = "dir" THEN Ok(t, "true") ELSE Fail(t)
     [] op.cmd = "mv" ->
          LET q == op.a[2] IN
          IF t[p].k # "file" THEN (IF t[p].k = "absent" THEN Fail(t) ELSE Ok(t, "skip"))
@@ -82,4 +87,5 @@ Ops == { [cmd |-> c, a |-> <<p, "x">>] : c \in {"writefile", "appendfile", "writ
    \cup { [cmd |-> c, a |-> <<p>>] : c \in {"touch", "mkdir", "rm", "rmdir", "readfile", "read_binary", "is_path_exists", "is_file", "is_dir", "get_file_size", "ls", "basename", "dirname"}, p \in Paths }
    \cup { [cmd |-> "rm", a |-> <<"-r", p>>] : p \in Paths }
    \cup { [cmd |-> c, a |-> <<p, q>>] : c \in {"cp", "mv"}, p \in Sources, q \in Paths }
+   \cup { [cmd |-> c, a |-> <<"a.txt">>] : c \in {"cp_detour", "mv_detour"} }
 =============================================================================
